@@ -36,6 +36,9 @@ type Setup struct {
 	Sig     map[string]string
 	// HealthyStatus is the Ready condition status the fair status actor reports ("" = "True").
 	HealthyStatus string
+	// OddObsGen: the children's own controller reports status.observedGeneration as a
+	// string ("string") or a non-integral number ("fraction") instead of an integer.
+	OddObsGen string
 }
 
 func isRolling(m string) bool { return strings.HasPrefix(m, "Rolling") }
@@ -552,12 +555,27 @@ func (s *Setup) StatusActor(healthy bool) []EnvOp {
 				cur, curReason = getStr(cond, "status"), getStr(cond, "reason")
 			}
 		}
-		if cur == want && curReason == reason && getInt(c, "status", "observedGeneration") == gen {
+		curOG := jsonString(getPath(c, "status", "observedGeneration"))
+		wantOG := fmt.Sprint(gen)
+		switch s.OddObsGen {
+		case "string":
+			wantOG = fmt.Sprintf("%q", fmt.Sprint(gen))
+		case "fraction":
+			wantOG = jsonString(float64(gen) + 0.5)
+		}
+		if cur == want && curReason == reason && curOG == wantOG {
 			continue
 		}
 		ops = append(ops, EnvOp{"status " + res.Kind + "/" + ns + "/" + name + "=" + want + "/" + reason, func(w *World) {
 			EditStatus(w, res, ns, name, "status", func(o Object) {
-				o["status"] = Object{"observedGeneration": getInt(o, "metadata", "generation"),
+				var og interface{} = getInt(o, "metadata", "generation")
+				switch s.OddObsGen {
+				case "string":
+					og = fmt.Sprint(og)
+				case "fraction":
+					og = float64(getInt(o, "metadata", "generation")) + 0.5
+				}
+				o["status"] = Object{"observedGeneration": og,
 					"conditions": []interface{}{Object{"type": "Ready", "status": want, "reason": reason}}}
 			})
 		}})
